@@ -153,6 +153,9 @@ type ExecEval struct {
 	X    *T // the executor pointer
 	Base *T // x.BaseExecutor
 	Info *ExecInfo
+	// FreshAtCall: how many fresh objects Apply itself had made when the closure it returned was called (RunApply):
+	// an object numbered above this was made by the call, not by Apply
+	FreshAtCall int
 }
 
 func (c *Ctx) NewExecEval(info *ExecInfo, cfg EvalConfig) *ExecEval {
@@ -220,6 +223,9 @@ func (ee *ExecEval) RunApply() (paths []*Path, innerFn, exec *T) {
 		}
 		cl := p.Rets[0]
 		exec = ee.Sym("exec", cl.Fn.Signature.Params().At(0).Type())
+		if p.State.nFresh > ee.FreshAtCall {
+			ee.FreshAtCall = p.State.nFresh
+		}
 		paths = append(paths, ee.Ev.CallTerm(p.State, cl, []*T{exec})...)
 	}
 	return paths, innerFn, exec
